@@ -902,3 +902,57 @@ Print Assumptions parse_tcp_sig_wf.
 Print Assumptions parse_mtu_sig_wf.
 Print Assumptions parse_http_sig_wf.
 Print Assumptions parse_file_records_variant.
+
+(* ---- text-mode reading glue ---- *)
+Definition nl_free (l : text) : Prop := ~ In 10 l /\ ~ In 13 l.
+
+Lemma univ_nl_app_free : forall l r, nl_free l -> univ_nl (l ++ 10 :: r) = l ++ 10 :: univ_nl r.
+Proof.
+  induction l as [|c l IH]; intros r [H10 H13].
+  - reflexivity.
+  - cbn [app univ_nl]. destruct (c =? 13) eqn:E.
+    + exfalso. apply H13. left. lia.
+    + f_equal. apply IH. split; intro HI; [apply H10 | apply H13]; right; exact HI.
+Qed.
+
+Lemma split_nl_app_free : forall l cur r, ~ In 10 l ->
+  split_nl cur (l ++ 10 :: r) = (rev cur ++ l) :: split_nl [] r.
+Proof.
+  induction l as [|c l IH]; intros cur r H10.
+  - cbn [app split_nl]. rewrite Z.eqb_refl, app_nil_r. reflexivity.
+  - cbn [app split_nl]. destruct (c =? 10) eqn:E.
+    + exfalso. apply H10. left. lia.
+    + rewrite IH by (intro HI; apply H10; right; exact HI).
+      cbn [rev]. rewrite <- app_assoc. reflexivity.
+Qed.
+
+(* a file written as its lines each followed by "\n" reads back as exactly those lines *)
+Theorem file_lines_join : forall ls, Forall nl_free ls ->
+  file_lines (concat (map (fun l => l ++ [10]) ls)) = ls.
+Proof.
+  unfold file_lines. induction 1 as [|l ls Hl _ IH].
+  - reflexivity.
+  - cbn [map concat]. rewrite <- app_assoc. cbn [app].
+    rewrite univ_nl_app_free by exact Hl.
+    rewrite split_nl_app_free by exact (proj1 Hl).
+    cbn [rev app]. f_equal. exact IH.
+Qed.
+
+(* ... and "\r\n" / "\r" terminators read as line ends too *)
+Lemma univ_nl_crlf : forall l r, nl_free l -> univ_nl (l ++ 13 :: 10 :: r) = l ++ 10 :: univ_nl r.
+Proof.
+  induction l as [|c l IH]; intros r [H10 H13].
+  - reflexivity.
+  - cbn [app univ_nl]. destruct (c =? 13) eqn:E.
+    + exfalso. apply H13. left. lia.
+    + f_equal. apply IH. split; intro HI; [apply H10 | apply H13]; right; exact HI.
+Qed.
+
+Theorem parse_text_records : forall t d, parse_text t = Ok d ->
+  (forall sec, In sec canonical_sections ->
+     Forall2 Corresponds (recs_of (section_of d sec)) (in_section sec (spec_records (file_lines t)))) /\
+  db_len d = Z.of_nat (length (spec_records (file_lines t))) /\
+  length (spec_records (file_lines t)) = length (filter is_sig_line (file_lines t)).
+Proof. intros t d H. exact (parse_file_records (file_lines t) d H). Qed.
+Print Assumptions file_lines_join.
+Print Assumptions parse_text_records.
